@@ -21,7 +21,17 @@ def declared_modes(ck) -> Tuple[List[str], Optional[str], ast.AST]:
         if True:
             kw = {k.arg: k.value for k in n.keywords}
             if isinstance(kw.get("dest"), ast.Constant) and kw["dest"].value == "outputMode":
-                ch = kw.get("choices")
+                def const_of(e):
+                    # a module-level NAME bound once to a literal stands for that literal
+                    if isinstance(e, ast.Name) and e.id in parse.module.assigns:
+                        stores = [x for x in ast.walk(parse.module.tree) if isinstance(x, ast.Name) and x.id == e.id
+                                  and isinstance(x.ctx, ast.Store)]
+                        if len(stores) == 1:
+                            return parse.module.assigns[e.id]
+                    return e
+                ch = const_of(kw.get("choices"))
+                if "default" in kw:
+                    kw["default"] = const_of(kw["default"])
                 if not isinstance(ch, (ast.List, ast.Tuple)) or not all(isinstance(e, ast.Constant) for e in ch.elts):
                     raise AnalysisError(f"{where(parse, n)}: literal choices of --outputMode not found")
                 default = kw["default"].value if isinstance(kw.get("default"), ast.Constant) else None
